@@ -8,7 +8,7 @@ import math
 import z3
 
 from .values import (SymV, Opaque, AbsVal, Obj, ClassRef, ExtClass, FuncRef, BoundMethod, ExtFunc, ModRef,
-                     PyList, PyDict, PySet, SymSeq, SymDict, SymColl, SDict, NpCell, NpArr, NpSlice, SliceV, NameK,
+                     PyList, PyDict, PySet, SymSeq, SymDict, SymColl, SDict, NpCell, NpArr, NpSlice, SliceV, NameK, TypeOfSym,
                      EngineLimit, is_sym, ival, rval, bval, nameval, mk, kind_of, intern_name, NONE_ID, A1, A2,
                      ite_value, seq_concat)
 
@@ -63,6 +63,11 @@ def check_hashable_concrete(k):
     if isinstance(k, (ClassRef, ExtClass)):
         return
     raise EngineLimit(f"dict key {k!r} is not concrete")
+
+
+def bval_eq(I, a, b):
+    t = _eq_term(I, a, b)
+    return z3.BoolVal(t) if isinstance(t, bool) else t
 
 
 def bool_and(a, b):
@@ -210,7 +215,19 @@ def _eq_term(I, a, b):
     raise EngineLimit(f"== between {a!r} and {b!r}")
 
 
+_TYPE_TAGS = {"builtins.int": TAG_INT, "builtins.bool": TAG_BOOL, "builtins.float": TAG_FLOAT, "builtins.str": TAG_STR}
+
+
 def compare(I, op, a, b, node=None):
+    if isinstance(a, TypeOfSym) or isinstance(b, TypeOfSym):
+        if isinstance(op, (ast.Is, ast.IsNot, ast.Eq, ast.NotEq)):
+            ts, other = (a, b) if isinstance(a, TypeOfSym) else (b, a)
+            if isinstance(other, ExtClass):
+                tg = _TYPE_TAGS.get(other.name)
+                t = (ts.tag == tg) if tg is not None else z3.BoolVal(False)
+                pos = isinstance(op, (ast.Is, ast.Eq))
+                return mk(t if pos else z3.Not(t), "bool")
+        raise EngineLimit("comparison of a symbolic type")
     if isinstance(op, (ast.Eq, ast.NotEq)):
         t = _eq_term(I, a, b)
         if isinstance(t, bool):
@@ -620,6 +637,8 @@ def _len(I, v, node=None):
     if isinstance(v, PyDict):
         return len(v.d) + len(v.sym)
     if isinstance(v, PySet):
+        if getattr(v, "symlen", None) is not None:
+            return mk(v.symlen, "int")
         return len(v.items)
     if isinstance(v, SymSeq):
         return v.n if isinstance(v.n, int) else mk(v.n, "int")
@@ -817,6 +836,19 @@ def call_extclass(I, c, args, kwargs, node=None):
     if n == "builtins.set":
         if not args:
             return PySet()
+        if isinstance(args[0], SymSeq) and args[0].concrete_len() is None:
+            seq = args[0]
+            cnt = I.ctx.fresh("set_len", z3.IntSort())
+            i_, j_ = z3.Int("_sd_i"), z3.Int("_sd_j")
+            ei, ej = seq.elem(i_), seq.elem(j_)
+            distinct = z3.ForAll([i_, j_], z3.Implies(z3.And(0 <= i_, i_ < j_, j_ < ival(seq.n)),
+                                                      z3.Not(bval_eq(I, ei, ej))))
+            # assumed contract of set(): 0 <= len(set(xs)) <= len(xs), equal iff xs is pairwise distinct
+            I.ctx.assume(z3.And(cnt >= 0, cnt <= ival(seq.n), (cnt == ival(seq.n)) == distinct,
+                                z3.Implies(ival(seq.n) > 0, cnt > 0)))
+            s_ = PySet()
+            s_.symlen = cnt
+            return s_
         items = []
         for x in I.iter_concrete(args[0]):
             if not any(_eq_term(I, x, y) is True for y in items):
@@ -952,7 +984,7 @@ def _m_any(I, b, a, kw, node):
 def _m_type(I, b, a, kw, node):
     v = a[0]
     if isinstance(v, SymV) and v.pytag is not None:
-        raise EngineLimit("type() of a value with a symbolic type tag")
+        return TypeOfSym(v.pytag)
     k = kind_of(v) if (isinstance(v, (SymV, bool, int, float, str, NameK)) or v is None) else None
     if v is None:
         return ExtClass("builtins.NoneType")
